@@ -236,17 +236,18 @@ _P = 'size: int, chunk: int, get_fault: int, fs_fault: int, s1: int, t1: int, s2
 _PRE = ['1 <= chunk <= 2 * 1024 ** 2', '0 <= size <= 3 * chunk', '-1 <= get_fault <= 5', '-1 <= fs_fault <= 12',
         '0 <= t1 <= 4 and 0 <= t2 <= 4', '-1 <= s1 <= 60 and -1 <= s2 <= 60']
 _S1 = ['%d <= s1 <= %d' % (a, a + 3) for a in range(0, 32, 4)] + ['32 <= s1']
+_S1W = ['%d <= s1 <= %d' % (a, a + 7) for a in range(0, 32, 8)] + ['32 <= s1']
 OBLIGATIONS = [
-    dict(id='C19.1', impl='protocol', params=_P, cases=[(1, 0), (1, 1)], cases_thorough=[(1, 0), (1, 1), (1, 2), (2, 0), (2, 1)],
+    dict(id='C19.1', impl='protocol', params=_P, cases=[(1, 0), (1, 1)], cases_thorough=[(1, 0), (1, 1), (1, 2), (2, 0)],
          pre=_PRE,
          splits=[['get_fault == -1', 'fs_fault == -1', 's2 == -1', 't2 == 0', r] for r in _S1] +
                 [['get_fault >= 0', 'fs_fault == -1', 's2 == -1', 't2 == 0', r] for r in
                  ('s1 == -1 and t1 == 0', '0 <= s1 <= 11', '12 <= s1 <= 23', '24 <= s1')] +
                 [['get_fault == -1', 'fs_fault >= 0', 's1 == -1', 't1 == 0', 's2 == -1', 't2 == 0']],
-         splits_thorough=[['get_fault == -1', 'fs_fault == -1', r, r2] for r in _S1 for r2 in
-                          ('0 <= s2 <= 10', '10 < s2 <= 20', '20 < s2 <= 30', '30 < s2')] +
-                         [['get_fault >= 0', 'fs_fault == -1', 's2 == -1', 't2 == 0', r] for r in _S1] +
-                         [['get_fault == -1', 'fs_fault >= 0', 's2 == -1', 't2 == 0', r] for r in _S1],
+         splits_thorough=[['get_fault == -1', 'fs_fault == -1', r, r2] for r in _S1W for r2 in
+                          ('s2 == -1 and t2 == 0', '0 <= s2 <= 15', '15 < s2')] +
+                         [['get_fault >= 0', 'fs_fault == -1', 's2 == -1', 't2 == 0', r] for r in _S1W] +
+                         [['get_fault == -1', 'fs_fault >= 0', 's2 == -1', 't2 == 0', r] for r in _S1W],
          timeout=(170, 1800),
          bounds='1 download (thorough: 2) of 1-3 jobs, 2 workers; statement-level interleaving with 1 (thorough 2) '
                 'preemption at a symbolic step to a symbolic thread; one failing GetObject or file-system operation '
